@@ -183,11 +183,22 @@ def okStep (fs : Fs) : Step → Bool
   | .sc o => fs.heads == [o]
   | _ => true
 
+/-- tree of the working-copy commit in the view of operation `h` (if both files are readable) -/
+def headTree (fs : Fs) (h : Nat) : Option Nat :=
+  match look h fs.ops with
+  | some r => look r.view fs.views
+  | none => none
+
 /-- The working-copy side of the discipline: new operations are only written and published by a
-    process whose working copy is at the head (cli_util.rs refuses to run on a stale working copy). -/
+    process whose working copy is at the head (cli_util.rs refuses to run on a stale working copy);
+    `tree_state` is saved before `checkout` (`LockedLocalWorkingCopy::finish`): when `checkout` is
+    pointed at an operation, `tree_state` already records that operation's working-copy tree, and a
+    working copy that is at the head only re-saves the head's tree. -/
 def okWc (fs : Fs) : Step → Bool
   | .wo _ _ => fs.heads == [fs.wcOp]
   | .ha _ => fs.heads == [fs.wcOp]
+  | .st t => !(fs.heads == [fs.wcOp]) || headTree fs fs.wcOp == some t
+  | .sc o => headTree fs o == some fs.wcTree
   | _ => true
 
 /-- every step of the list satisfies its guard in the state it is performed in -/
